@@ -12,6 +12,10 @@ registered in sftp_server._hash_class that is bit-identical to the Lean toy: rep
 hash bytes must be equal (valid stream), plus unknown algorithms / too-small blocks (error stream).
 Oracle (model-independent): real files on disk served by tests._stub_sftp.StubSFTPServer, md5/sha1 through the
 public SFTPFile.check, compared with hashlib over slices of the file computed here; prompt answer.
+Sequences: the answer must be a function of the CURRENT file only.  On one open handle: checks to EOF, then the
+file changes behind the handle (in-memory file replaced; real file grown by SFTPFile.truncate on the same handle,
+SFTPClient.truncate by path, an append through a second handle, or an os-level append), then checks again — both
+against the (pure) model and against hashlib.
 """
 import hashlib
 import os
@@ -232,7 +236,7 @@ def run(ctx):
                 checks.append((algs, st, ln, bs))
             if size == 200000 and k == 0:
                 checks.insert(0, ("pvtoy", 0, 0, 0))  # DESIGN.md section 7 witness
-            plan.append(("f%d_%d" % (idx, k), size, seed, k, None, None, checks))
+            plan.append(("f%d_%d" % (idx, k), size, seed, k, None, None, checks, False))
         # failing handles: reads returning an error code from some offset on, stat() returning an error code
         if idx % 2 == 0:
             fault = (rng.choice([0, size // 2, max(size - 1, 0), size, size + 1]), rng.choice([1, 2, 3, 4, 5, 8]))
@@ -241,9 +245,21 @@ def run(ctx):
                       for (st, ln, bs) in gen_params(rng, size, 6 if not ctx.thorough else 20)]
             checks.append(("pvtoy", 0, 0, 300, True))  # handle not in the file table
             checks.append(("nope", 0, 0, 0, True))
-            plan.append(("f%d_flt" % idx, size, seed, 0, fault, statc, checks))
+            plan.append(("f%d_flt" % idx, size, seed, 0, fault, statc, checks, False))
+    # sequences on ONE open handle with the file changing in between (the model is a pure function of the current
+    # file: any memory across requests is a disagreement): check to EOF, grow the file, check to EOF again
+    for j, (s1, s2) in enumerate([(1000, 5000), (300, 70000), (CHUNK, 2 * CHUNK + 17), (100000, 100001), (0, 4096),
+                                  (5000, 5000)] + ([(200000, 300000), (70000, 400000)] if ctx.thorough else [])):
+        seed = rng.randrange(1, 1000)
+        k = rng.choice([0, 0, 2])
+        first = [("pvtoy", 0, 0, 0), ("pvtoy", rng.randrange(0, s1 + 1), 0, rng.choice([256, 1000, CHUNK])),
+                 ("pvtoy", 0, 0, 256)]
+        second = [("pvtoy", 0, 0, 0), ("pvtoy", min(s1, s2), 0, 256), ("pvtoy", 0, 0, rng.choice([256, 4096, CHUNK + 1])),
+                  ("pvtoy", rng.randrange(0, s2 + 1), 0, 0), ("pvtoy", 0, s2, 0)]
+        plan.append(("seq%d" % j, s1, seed, k, None, None, first, False))
+        plan.append(("seq%d" % j, s2, seed, k, None, None, second, True))
     reqs = ["known " + ",".join(known_names)]
-    for name, size, seed, k, fault, statc, checks in plan:
+    for name, size, seed, k, fault, statc, checks, _resize in plan:
         reqs.append("file %d %d" % (size, seed))
         reqs.append("policy %d" % k)
         reqs.append("fault %s %d" % (("-", 0) if fault is None else fault))
@@ -256,16 +272,22 @@ def run(ctx):
     if mi is not None:
         next(mi)
 
-    mem = {name: (pattern(size, seed), policy_fn(k), fault, statc) for name, size, seed, k, fault, statc, _ in plan}
+    mem = {}
+    for name, size, seed, k, fault, statc, _c, resize in plan:
+        if not resize:  # contents live in a box so that they can be replaced while a handle is open
+            mem[name] = ([pattern(size, seed)], policy_fn(k), fault, statc)
     srvmod._hash_class["pvtoy"] = ToyHash
     try:
         with lib.ReadCounter() as counter:
             runner = Runner(ctx, lib, counter, lambda: lib.Session(si_class=lib.make_mem_si(mem), timeout=900.0))
             try:
-                for name, size, seed, k, fault, statc, checks in plan:
+                for name, size, seed, k, fault, statc, checks, resize in plan:
                     if mi is not None:
                         next(mi), next(mi), next(mi), next(mi)
-                    content = mem[name][0]
+                    if resize:  # the file changes behind the open handle (pattern(n) is a prefix of pattern(n + d))
+                        mem[name][0][0] = pattern(size, seed)
+                        ctx.dist("sequence:file-resized-behind-open-handle")
+                    content = mem[name][0][0]
                     for c in checks:
                         algs, st, ln, bs = c[:4]
                         bad_handle = len(c) > 4 and c[4]
@@ -277,6 +299,10 @@ def run(ctx):
                             continue
                         case = {"file": "pattern(size=%d, seed=%d)" % (size, seed), "read_policy": k, "algs": algs,
                                 "start": st, "length": ln, "block": bs}
+                        if resize:
+                            case["sequence"] = ("same open handle: checks on pattern(size=%d) first, then the file was "
+                                                "replaced by pattern(size=%d), then this check" % (
+                                                    next(p_[1] for p_ in plan if p_[0] == name), size))
                         failing = fault is not None or statc is not None or bad_handle
                         if failing:
                             case.update({"read_fault": fault, "stat_code": statc, "bad_handle": bad_handle})
@@ -308,10 +334,11 @@ def run(ctx):
                             pass  # reply kinds for failing handles are compared with the model only (C30's subject)
                         elif chosen and want is not None:
                             if res[0] != "hashes":
-                                ctx.fail("error-reply", case, impl)
+                                ctx.fail("stale-size-after-file-changed" if resize else "error-reply", case, impl)
                             elif res[2] != want:
                                 L = (size - st) if ln == 0 else ln
-                                ctx.fail(classify_wrong(L if bs == 0 else bs), case,
+                                ctx.fail("stale-size-after-file-changed" if resize else
+                                         classify_wrong(L if bs == 0 else bs), case,
                                          "got %d bytes of hashes, expected %d; first difference in hash #%d" % (
                                              len(res[2]), len(want),
                                              next((i // 8 for i in range(0, max(len(want), len(res[2])), 8)
@@ -371,6 +398,60 @@ def run(ctx):
                                              len(res[2]), len(want),
                                              next((i // dl for i in range(0, max(len(want), len(res[2])), dl)
                                                    if res[2][i:i + dl] != want[i:i + dl]), -1)))
+                    # ---- sequences on one open handle: check to EOF, grow the file by another route, check again
+                    routes = ["handle-truncate", "path-truncate", "second-handle-append", "os-append"]
+                    seq_files = [n_ for n_, d_ in contents.items() if len(d_) <= 200000][: (12 if ctx.thorough else 6)]
+                    for qi, name in enumerate(seq_files):
+                        if runner.hangs >= 3:
+                            break
+                        data = contents[name]
+                        alg = rng.choice(["md5", "sha1"])
+                        H = lambda d, alg=alg: hashlib.new(alg, d).digest()  # noqa: E731
+                        history = []
+                        for step in range(3 if ctx.thorough else 2):
+                            bs = rng.choice([0, 256, 4096, CHUNK])
+                            st = rng.choice([0, 0, len(data) // 2])
+                            for (st_, bs_) in ((st, bs), (0, 0)):
+                                res = runner.call(name, alg, st_, 0, bs_, raw=False)
+                                want = expected(data, H, st_, 0, bs_)
+                                history.append("check(%s, %d, 0, %d) on %d bytes" % (alg, st_, bs_, len(data)))
+                                ctx.case(("real-seq", qi, step, st_, bs_, len(data)), bool(want))
+                                ctx.dist("real-sequence:check")
+                                case = {"file": "random bytes", "alg": alg, "sequence_on_one_handle": list(history)}
+                                if res[0] == "hang":
+                                    ctx.fail("hang:empty-read-at-eof", case, repr(res[1]))
+                                elif want is None:
+                                    pass
+                                elif res[0] != "hashes":
+                                    ctx.fail("error-reply", case, res[1])
+                                elif res[2] != want:
+                                    ctx.fail("stale-size-after-file-changed" if step else classify_wrong(bs_ or len(data)),
+                                             case, "got %d hash bytes, expected %d (hashlib over the CURRENT %d-byte "
+                                             "file)" % (len(res[2]), len(want), len(data)))
+                            route = routes[(qi + step) % len(routes)]
+                            extra = rng.randbytes(rng.choice([1, 300, 5000, CHUNK + 3]))
+                            path = os.path.join(root, name)
+                            if route == "handle-truncate":
+                                runner._open(name).truncate(len(data) + len(extra))
+                                data = data + bytes(len(extra))
+                            elif route == "path-truncate":
+                                runner.session.client.truncate("/" + name, len(data) + len(extra))
+                                data = data + bytes(len(extra))
+                            elif route == "second-handle-append":
+                                g = runner.session.client.open("/" + name, "ab")
+                                g.write(extra)
+                                g.close()
+                                data = data + extra
+                            else:
+                                with open(path, "ab") as fh:
+                                    fh.write(extra)
+                                data = data + extra
+                            with open(path, "rb") as fh:
+                                if fh.read() != data:
+                                    raise InfraError("sequence step %s did not produce the expected file" % route)
+                            contents[name] = data
+                            history.append("grow to %d bytes via %s" % (len(data), route))
+                            ctx.dist("real-sequence:grow:" + route)
                 finally:
                     runner.drop()
             finally:
